@@ -365,12 +365,13 @@ func RunLeafPlan(w *World, q *QueryDef, leaf *LeafDef, receivers []string) ([]*p
 	// what storage hands to the down-sampling of one series: field index -> slot -> value. A series
 	// takes part in the query on this node iff it has a point of a selected field in the family
 	// (possibly outside the queried slot range: then its aggregator exists but stays empty).
+	bySeries := map[int][]Point{}
+	for _, p := range w.Points {
+		bySeries[p.Series] = append(bySeries[p.Series], p)
+	}
 	seriesData := func(si int) map[int]sliceGetter {
 		perField := map[int]sliceGetter{}
-		for _, p := range w.Points {
-			if p.Series != si {
-				continue
-			}
+		for _, p := range bySeries[si] {
 			fi, ok := fieldIdx[w.Fields[p.Field].Name]
 			if !ok {
 				continue // field not selected
